@@ -12,7 +12,7 @@ import (
 func init() {
 	register("C01", &ruleSet{
 		run:    runC01,
-		floors: map[string]int{"O1": 2, "O2": 4, "O3": 2, "O4": 4, "O5": 2, "O6": 7, "O7": 1, "O8": 2},
+		floors: map[string]int{"O1": 2, "O2": 4, "O3": 2, "O4": 4, "O5": 2, "O6": 7, "O7": 1, "O8": 2, "O9": 2},
 		explain: "Decides the premises from which the atomic-gate property follows by the short paper argument in DESIGN.md (releases only lower the counter; acquires and " +
 			"limit changes are serialised; the decision compares counter and limit in the right direction; the limit never drops below 1): (O1) every call of Strategy.TryAcquire " +
 			"and every post-construction call of Strategy.SetLimit inside a limiter holds that limiter's mutex exclusively; (O2) in each non-partitioned strategy every granting " +
@@ -108,6 +108,8 @@ func runC01(p *Prog, l *Ledger) {
 	importObligations(p, l, "C17", "O8", func(o *Obligation) bool {
 		return o.Rule == "O1" && (strings.Contains(o.Key, "strategy.SimpleStrategy.") || strings.Contains(o.Key, "strategy.PreciseStrategy."))
 	})
+	l.Rule("O9", "the limit the gate enforces is the algorithm's (decided by the C05/O1 and O2 rules on the same tree): the constructor hands the initial estimate to the strategy, and every window update hands it the new one under the limiter's lock")
+	importObligations(p, l, "C05", "O9", func(o *Obligation) bool { return o.Rule == "O1" || o.Rule == "O2" })
 	l.Rule("O6", "conservation prerequisites (decided by the C02 rules on the same tree): a token granted to the default limiter is handed to the returned listener or released on every path; every listener outcome releases it exactly once")
 	l.NotCovered = []string{"the linearisation argument is on paper (DESIGN.md 5/C01)", "int32 truncation of limits >= 2^31", "over-admission by design when several limiters share one strategy object"}
 	locks := p.Locksets()
